@@ -18,7 +18,7 @@ CLAIM = {
              "field lists with `,string`, interface{}, RawMessage and abstract Unmarshaler/TextUnmarshaler leaves): the FieldMap probe finds "
              "exactly the stored id for every hash function; exact-then-ToLower equals encoding/json's exact-then-fold on ASCII names "
              "(refuted beyond ASCII by a witness); the assembler's range checks accept exactly the representable integers at every width "
-             "(the uint32 map-key variant refuted by 2^32); CheckTrailings accepts exactly whitespace; and sonic_bind agrees with std_bind "
+             "(the uint32 map-key variant was repaired by fix afd5482); CheckTrailings accepts exactly whitespace; and sonic_bind agrees with std_bind "
              "on error-or-not and on the value for the proved fragment, with each known divergence as an explicit guard plus a refutation "
              "witness. Both models are tied to the real sonic and the real encoding/json on generated (type, initial value, input, config) "
              "cases; the compiler's IL listing is tied to the model's compile for every generated type; FieldMap and ResolveStruct are "
@@ -36,10 +36,9 @@ FINDINGS = [
     ("KF-C01-unterminated-string-32", ("unterm32",), lambda s, j, v, je, se: v == "errdiff" and s == "O"),
     ("KF-C01-mapkey-skip-panic", ("mapkeyskip",), lambda s, j, v, je, se: v == "crash" and s == "P" and "index out of range" in se),
     ("KF-C01-ptrptr-null", ("ptrptrunm",), lambda s, j, v, je, se: v == "errdiff"),
-    ("KF-C01-u32-mapkey-wrap", ("u32key",), lambda s, j, v, je, se: v == "valdiff" or (v == "errdiff" and s == "O")),
     ("KF-C01-base64-padding", ("b64pad",), lambda s, j, v, je, se: v == "errdiff" and s == "O" and "base64" in je),
     ("KF-C01-quoted-string-inner", ("qesc",), lambda s, j, v, je, se: v == "errdiff" and s == "O" and "invalid use of ,string" in je),
-    ("KF-C01-raw-lenient", ("rawlenient",), lambda s, j, v, je, se: v == "errdiff" and s == "O" and "SyntaxError" in je),
+    ("KF-C01-raw-lenient", ("rawlenient",), lambda s, j, v, je, se: v == "errdiff" and s == "O" and ("SyntaxError" in je or "errorString:invalid" in je)),
     ("KF-C01-quoted-number-syntax", ("intkey", "qnum"), lambda s, j, v, je, se: v == "errdiff" and s == "E"),
     ("KF-C01-f32-double-rounding", ("f32dr",), lambda s, j, v, je, se: v == "valdiff" or (v == "errdiff" and s == "E")),
     ("KF-C01-utf8-raw", ("utf8raw",), lambda s, j, v, je, se: v == "valdiff"),
